@@ -477,7 +477,11 @@ func (p2pHarness) Gen(seed uint64, prop, tier string) *simkit.Program {
 				next = dd
 			}
 			set = next
-			idx++
+			if r.P(0.25) && idx > 0 {
+				idx -= int64(1 + r.Intn(int(idx))) // a lagging chain / restarted watcher re-reports an older index
+			} else {
+				idx++
+			}
 			add("set", idx, 0, 0, 0, xs(set))
 			continue
 		}
